@@ -1,4 +1,4 @@
-CONSTANTS MaxDepth = 2 Via = "capture"
+CONSTANTS MaxDepth = 2 Via = "send"
 INIT Init
 NEXT Next
 INVARIANT Emit
